@@ -140,24 +140,25 @@ Print Assumptions C20_one_line_per_entry.
 
 (* Per configured log (the statement of the property): [counts_ok] = every log directive gets
    exactly one line iff the request is inside its scope and not excepted by its own except
-   list.  It holds for every site whose log directives share one scope and where only the last
-   one has an except list — for every request, every handler outcome when an errors directive
-   is present (panics included), every returning handler otherwise. *)
+   list (every directive has its own since the repair of F-C20-4).  It holds for every site whose
+   log directives share one scope, whatever their except lists — for every request, every
+   handler outcome when an errors directive is present (panics included), every returning
+   handler otherwise. *)
 Theorem C20_one_line_per_log_partial :
   forall c cs tbl (haserr hdrw : bool) sc ds path ops ret,
-  uniform_scope sc ds -> exc_only_last ds -> (haserr = true \/ no_panic ops = true) ->
+  uniform_scope sc ds -> (haserr = true \/ no_panic ops = true) ->
   counts_ok cs ds 0 path (snd (site_serve c cs tbl haserr hdrw ds path ops ret)) = true.
 Proof. exact site_one_line_per_log_partial. Qed.
 Print Assumptions C20_one_line_per_log_partial.
 
 Example C20_one_line_per_log_partial_nonvacuous :
   snd (site_serve {| w_nethttp := true; w_head := false |} false [(404%Z, 14); (500%Z, 26)] true false
-         [ {| d_scope := bs "/a"; d_except := [] |}; {| d_scope := bs "/a"; d_except := [bs "/a/b"] |} ]
+         [ {| d_scope := bs "/a"; d_except := [bs "/a/x"] |}; {| d_scope := bs "/a"; d_except := [bs "/a/b"] |} ]
          (bs "/a/x") [OPanic] 0%Z)
-  = [(0%nat, 500%Z, 26); (1%nat, 500%Z, 26)].
+  = [(1%nat, 500%Z, 26)].
 Proof. vm_compute. reflexivity. Qed.
 
-(* The unrestricted statement is false of the code, three ways: *)
+(* The unrestricted statement is false of the code, two ways: *)
 (* (a) only the FIRST rule whose scope matches is served: a second log directive with another
        scope that also contains the request gets no line *)
 Theorem C20_one_line_per_log_overlap_refuted :
@@ -172,22 +173,7 @@ Proof.
 Qed.
 Print Assumptions C20_one_line_per_log_overlap_refuted.
 
-(* (b) the except list is shared: a later log directive inherits the exceptions of the earlier ones *)
-Theorem C20_one_line_per_log_except_refuted :
-  exists sc ds path ops ret,
-  uniform_scope sc ds /\ no_panic ops = true /\
-  counts_ok false ds 0 path
-    (snd (site_serve {| w_nethttp := true; w_head := false |} false [(404%Z, 14)] true false ds path ops ret)) = false.
-Proof.
-  exists (bs "/"),
-         [ {| d_scope := bs "/"; d_except := [bs "/x"] |}; {| d_scope := bs "/"; d_except := [] |} ],
-         (bs "/x"), [], 404%Z.
-  split; [|vm_compute; split; reflexivity].
-  intros d [<-|[<-|[]]]; reflexivity.
-Qed.
-Print Assumptions C20_one_line_per_log_except_refuted.
-
-(* (c) without an errors directive a panicking handler is answered (500 by the server's own
+(* (b) without an errors directive a panicking handler is answered (500 by the server's own
        recover) but not logged *)
 Theorem C20_panic_logged_refuted :
   exists ds path ops ret,
